@@ -9,8 +9,9 @@ import subprocess
 
 import common as C
 
-THEOREMS = ['builder_roundtrip_partial', 'from_iter_session', 'snapshot_immutable', 'snapshot_stable_values', 'equal_states_equal_snapshots',
-            'ill_nested_errors', 'growth_irrelevant']
+THEOREMS = ['builder_roundtrip', 'from_iter_session_full', 'builder_roundtrip_partial', 'from_iter_session',
+            'builder_roundtrip_tuples_partial', 'builder_roundtrip_records_partial', 'snapshot_immutable',
+            'snapshot_stable_values', 'equal_states_equal_snapshots', 'ill_nested_errors', 'growth_irrelevant']
 COQ_DIR = os.path.join(C.VERIF, 'c14', 'coq')
 COQ_LOGICAL = '-R %s/coq AwkV -R . AwkBuilder' % C.VERIF
 NEEDS_SAN = True
@@ -24,9 +25,12 @@ RULE = ('sessions = command sequences over {null,bool,int,real,str,bytes,beginli
         'resize in {1.01,1.1,1.5,2} so that every buffer is reallocated at (almost) every size. non-trivial = the '
         'session has >= 1 snapshot of length >= 1 and >= 1 bracket command; distinct by session text')
 ASSUMPTIONS = [
-    'theorems: builder_roundtrip_partial covers None/bool/int/real/string/bytestring and arbitrarily nested, arbitrarily '
-    'heterogeneous lists (all Unknown/Option/Union/List/Bool/Int64/Float64/String builder transitions); records and '
-    'tuples are covered by the correspondence (Spec.unify vs implementation vs model) but not by that theorem; '
+    'theorems: builder_roundtrip / from_iter_session_full are the FULL round trip: every list of well-formed Python values '
+    '(Spec.pywf = distinct keys in one dict): None/bool/int/real/string/bytestring, lists, tuples of any arity, records '
+    'named or unnamed with any field sets and orders, arbitrarily nested and heterogeneous (all Unknown/Option/Union/'
+    'List/Tuple/Record/Bool/Int64/Float64/String builder transitions), for all growth options; the model follows the '
+    'repaired RecordBuilder::beginrecord (75cafad: a record named "" no longer merges into an unnamed one); '
+    'builder_roundtrip_partial / _tuples_partial / _records_partial are the staged fragments (corollaries); '
     'snapshot_immutable, growth_irrelevant, equal_states_equal_snapshots hold for ALL sessions and builder classes; '
     'ill_nested_errors lists the refusal cases proved (state unchanged)',
     'complex / datetime / timedelta and append / extend (IndexedBuilder) are not exercised (not modelled)',
